@@ -10,11 +10,10 @@ Import ListNotations.
    loop of process_function), every trace entry that is recorded carries the namespace of the function
    and a card index that Module::get_card (the C16 model, CardEdit.get_card / get_child) resolves to a
    card, in any module whose function number [cs_fn] has these cards - for all card kinds, nesting and
-   closures, provided no Repeat card occurs (finding N-C15-1 below).
+   closures.
    This is where the compiler's child numbering and Card::get_child have to agree. *)
 Theorem C15_emit_index_sound :
   forall (cards : list card) (s s' : cstate),
-    forallb repeat_free cards = true ->
     (cs_idx s = [] \/ exists x, cs_idx s = [x]) ->
     process_cards cards 0 s = ROk tt s' ->
     exists new, cs_trace s' = new ++ cs_trace s /\
@@ -27,11 +26,10 @@ Proof. exact emit_index_sound. Qed.
 Print Assumptions C15_emit_index_sound.
 
 (* compile_error_loc, per function: a compilation error raised while the cards of a function are compiled
-   (EmptyVariable, TooManyLocals, InvalidJump, SuperLimitReached) has a location whose card index
+   (EmptyVariable, TooManyLocals, TooManyUpvalues, InvalidJump, SuperLimitReached) has a location whose card index
    resolves, through Module::get_card, to a card of that function *)
 Theorem C15_compile_error_loc :
   forall (cards : list card) (s : cstate) (e : cerr) (l : option loc),
-    forallb repeat_free cards = true ->
     (cs_idx s = [] \/ exists x, cs_idx s = [x]) ->
     process_cards cards 0 s = RErr e l ->
     exists ns idx, l = Some (ns, idx) /\ ns = cs_ns s /\
@@ -41,15 +39,14 @@ Theorem C15_compile_error_loc :
 Proof. exact compile_error_loc. Qed.
 Print Assumptions C15_compile_error_loc.
 
-(* finding N-C15-1 (confirmed on the crate, `cao-verif-harness c10-witness`): the count card of a Repeat
-   is compiled under sub-index [.., 0, 0] (push_subindex(0) followed by compile_subexpr, which pushes
-   another 0) while Card::get_child(Repeat, 0) is the count card: the location of its instructions
-   does not resolve *)
-Theorem C15_repeat_count_index_unresolvable :
+(* finding N-C15-1 (confirmed on the crate at 79de9a2, repaired by 2f34106): the count card of a Repeat
+   was compiled under sub-index [.., 0, 0] while Card::get_child(Repeat, 0) is the count card, so the
+   location of its instructions did not resolve; now it does *)
+Theorem C15_repeat_count_index_resolves :
   exists B idx,
     compile (main_module [CRepeat None (CScalarInt 3) CScalarNil]) default_options = COk B /\
     In (0%N, ([], idx)) (p_trace B) /\
     CardEdit.get_card (main_module [CRepeat None (CScalarInt 3) CScalarNil]) idx
-    = CardEdit.RErr (CardEdit.CardNotFound 2).
-Proof. exact repeat_count_index_unresolvable. Qed.
-Print Assumptions C15_repeat_count_index_unresolvable.
+    = CardEdit.ROk (CScalarInt 3).
+Proof. exact repeat_count_index_resolves. Qed.
+Print Assumptions C15_repeat_count_index_resolves.
